@@ -67,8 +67,12 @@ def gen_instance(rng, nmax=8, akinds=("pd", "pd", "pd", "pd", "indef", "psd")):
         A = _herm_pd(rng, n, cplx, shift=0)
     else:
         A = _herm_any(rng, n, cplx)
-    pk = rng.choice(["none", "none", "diag", "dense"])
-    if pk == "diag":
+    pk = rng.choice(["none", "none", "diag", "dense", "ident"])
+    if pk == "ident":
+        # a preconditioner that returns its input OBJECT (sigpy.linop.Identity / lambda r: r): valid (the
+        # identity is Hermitian PD) and the only way to observe whether __init__ copies z into p
+        P = ["ident", [[1, 0] for _ in range(n)]]
+    elif pk == "diag":
         P = ["diag", [[rng.randint(1, 5), 0] for _ in range(n)]]
     elif pk == "dense":
         P = ["dense", _herm_pd(rng, n, cplx)]
@@ -114,6 +118,12 @@ def build(inst, mode):
     kind, data = inst["P"]
     if kind == "none":
         P = None
+    elif kind == "ident":
+        if inst["form"] == "linop":
+            P = sp.linop.Identity(shape)
+        else:
+            def P(r):
+                return r
     elif kind == "diag":
         d = _vec(data, mode, cplx, shape)
 
@@ -179,7 +189,7 @@ def run_real(inst, mode, k, hook=None):
 
 def model_line(inst, k):
     kind, data = inst["P"]
-    ps = "none" if kind == "none" else "%s:%s" % (kind, ",".join(fmt_q(QI(a, b)) for a, b in data))
+    ps = "none" if kind == "none" else "%s:%s" % ("diag" if kind == "ident" else kind, ",".join(fmt_q(QI(a, b)) for a, b in data))
     return "C12 run n=%d A=%s b=%s x=%s P=%s maxiter=%d tol=%s k=%d" % (
         inst["n"], ",".join(fmt_q(QI(a, b)) for a, b in inst["A"]),
         ",".join(fmt_q(QI(a, b)) for a, b in inst["b"]), ",".join(fmt_q(QI(a, b)) for a, b in inst["x0"]),
@@ -242,7 +252,7 @@ def compare_exact(inst, real, model):
         if not s["x_is_caller"]:
             diffs.append("update %d: alg.x is no longer the caller's array" % k)
         # `p is r` exactly when no private copy was made (max_iter <= 1) and there is no preconditioner
-        if s["p_is_r"] != (m["alias"] == "1" and inst["P"][0] == "none"):
+        if s["p_is_r"] != (m["alias"] == "1" and inst["P"][0] in ("none", "ident")):
             diffs.append("update %d: p-is-r aliasing real=%s model alias=%s" % (k, s["p_is_r"], m["alias"]))
     return diffs
 
@@ -260,7 +270,7 @@ def _finite(s):
 def float_step_lines(inst, real):
     """one `C12 step` request per float update: the float state before it, as exact dyadic rationals"""
     kind, data = inst["P"]
-    ps = "none" if kind == "none" else "%s:%s" % (kind, ",".join(fmt_q(QI(a, b)) for a, b in data))
+    ps = "none" if kind == "none" else "%s:%s" % ("diag" if kind == "ident" else kind, ",".join(fmt_q(QI(a, b)) for a, b in data))
     head = "C12 step n=%d A=%s P=%s maxiter=%d tol=%s" % (
         inst["n"], ",".join(fmt_q(QI(a, b)) for a, b in inst["A"]), ps, inst["max_iter"], inst["tol"])
     lines = []
@@ -375,7 +385,7 @@ def _exact_problem(inst):
     n = inst["n"]
     A = qarr([QI(a, b) for a, b in inst["A"]], (n, n))
     P = None
-    if inst["P"][0] == "diag":
+    if inst["P"][0] in ("diag", "ident"):
         P = qarr([QI(0, 0)] * (n * n), (n, n))
         for i, (a, b) in enumerate(inst["P"][1]):
             P[i, i] = QI(a, b)
